@@ -3,29 +3,35 @@ import Aurora.Lemmas.BmtConcTog
 namespace Aurora.BmtConc
 open Aurora.Bmt
 
-theorem inv_step {cfg : Cfg} {s s' : St} {ph : Nat → Nat → Ph} {t : Nat} (hv : cfg.vals ≠ [])
+theorem inv_step_mono {cfg : Cfg} {s s' : St} {ph : Nat → Nat → Ph} {t : Nat} (hv : cfg.vals ≠ [])
     (hpos : cfg.pos < 2 ^ cfg.d) (inv : Inv cfg s ph) (h : step cfg s t = some s') :
-    ∃ ph', Inv cfg s' ph' := by
+    ∃ ph', Inv cfg s' ph' ∧ Mono ph ph' := by
   obtain ⟨ht, hr⟩ := step_rel h
   cases hr with
-  | init hpc => exact ⟨ph, inv_init hv inv ht hpc⟩
-  | send c k sv v hpc hc hres hvv => exact ⟨_, inv_send hpos inv ht hpc hc hvv⟩
-  | finNil c k hpc hc _ => exact ⟨ph, inv_finNil inv ht hpc hc⟩
+  | init hpc => exact ⟨ph, inv_init hv inv ht hpc, mono_refl _⟩
+  | send c k sv v hpc hc hres hvv => exact ⟨_, inv_send hpos inv ht hpc hc hvv, mono_arrive _ _ _⟩
+  | finNil c k hpc hc _ => exact ⟨ph, inv_finNil inv ht hpc hc, mono_refl _⟩
   | wrL c k sv hpc hc htp hk =>
     cases sv with
     | none => have := inv.thr t ht; rw [hpc] at this; have := this.1; omega
-    | some v => exact ⟨ph, inv_writeL inv ht hpc hc htp hk⟩
+    | some v => exact ⟨ph, inv_writeL inv ht hpc hc htp hk, mono_refl _⟩
   | wrR c k sv hpc hc htp hk =>
     cases sv with
     | none => have := inv.thr t ht; rw [hpc] at this; have := this.1; omega
-    | some v => exact ⟨ph, inv_writeR inv ht hpc hc hk⟩
-  | fzr c k sv hpc hc htp hk => exact ⟨ph, inv_fzr inv ht hpc hc htp hk⟩
-  | fwr c k v hpc hc htp hk => exact ⟨ph, inv_writeR inv ht hpc hc hk⟩
-  | fnil c k hpc hc htp hk => exact ⟨ph, inv_fnil inv ht hpc hc hk⟩
+    | some v => exact ⟨ph, inv_writeR inv ht hpc hc hk, mono_refl _⟩
+  | fzr c k sv hpc hc htp hk => exact ⟨ph, inv_fzr inv ht hpc hc htp hk, mono_refl _⟩
+  | fwr c k v hpc hc htp hk => exact ⟨ph, inv_writeR inv ht hpc hc hk, mono_refl _⟩
+  | fnil c k hpc hc htp hk => exact ⟨ph, inv_fnil inv ht hpc hc hk, mono_refl _⟩
   | zrSome c k v hpc htp => exact ⟨_, inv_zrSome hv inv ht hpc⟩
   | zrNone c k hpc htp => exact inv_zrNone hv inv ht hpc
   | tog c k hpc => exact inv_tog inv ht hpc
-  | hash c j hpc => exact ⟨ph, inv_hash hv inv ht hpc⟩
+  | hash c j hpc => exact ⟨ph, inv_hash hv inv ht hpc, mono_refl _⟩
+
+theorem inv_step {cfg : Cfg} {s s' : St} {ph : Nat → Nat → Ph} {t : Nat} (hv : cfg.vals ≠ [])
+    (hpos : cfg.pos < 2 ^ cfg.d) (inv : Inv cfg s ph) (h : step cfg s t = some s') :
+    ∃ ph', Inv cfg s' ph' := by
+  obtain ⟨ph', h1, _⟩ := inv_step_mono hv hpos inv h
+  exact ⟨ph', h1⟩
 
 /-- initial ghost: leaf `i ≤ pos` is held by its section thread, everything else pending -/
 def ph0 (cfg : Cfg) : Nat → Nat → Ph := fun c k => if c = 0 ∧ k ≤ cfg.pos then .held k else .pending
